@@ -20,7 +20,7 @@ CHECKS = {
  "C05": dict(
    technique="SMT translation validation of the SMT-LIB writer: text written by the real serialize_cmd is sort-checked by the z3 5.1 and cvc5 1.0 front ends and proved equivalent to an independent RefSmt encoding for all assignments",
    category="translation_validation",
-   text="For every enumerated expression shape (every consumer operator x argument position x producer x 1-bit/wide, arrays with Bool index and/or data, 12 symbol-name classes) the real DeclareConst/DefineConst/Assert/CheckSatAssuming/GetValue text is fed to two independent solver front ends (any (error = ill-sorted) and the solver proves written term == RefSmt(expression) for ALL assignments, the Bool<->BitVec link being part of the query.",
+   text="For every enumerated expression shape (every consumer operator x argument position x producer x 1-bit/wide, arrays with Bool index and/or data, 12 symbol-name classes) the real DeclareConst/DefineConst/Assert/CheckSatAssuming/GetValue text is fed to two independent solver front ends (any (error = ill-sorted) and the solver proves written term == RefSmt(expression) for ALL assignments, the Bool<->BitVec link being part of the query. Every fifth serialisation on a thread is preceded by one into a writer that fails part-way (the writer must not carry state from an aborted term).",
    design_ref="DESIGN.md section 4 C05",
    note="Trusted: RefSmt, the sort checkers of z3/cvc5; cvc5 is skipped for terms with a non-literal value under the non-standard `as const` and sampled 1-in-4 in the quick tier. Names containing | or \\ and reserved words are outside the claim."),
  "C11": dict(
@@ -32,7 +32,7 @@ CHECKS = {
  "C14": dict(
    technique="SMT translation validation of the SMT-LIB reader: writer output (and let-introduced variants) read back by the real parse_expr/parse_command and proved equivalent to the original by solver miter; model values as printed by live z3 4.8.12 / z3 5.1 / cvc5 (incl. --dag-thresh=1 lets) read back and proved equal to the value the solver holds",
    category="translation_validation",
-   text="Round trip for every C05 shape (expression, DefineConst/DeclareConst/Assert/CheckSatAssuming/GetValue commands, let-variants with binders that shadow declared symbols): same type and solver-proved equivalence for ALL assignments. Value forms are produced by the installed solvers themselves for 11 sorts x boundary values; every response, its token-boundary truncations and single-atom deletions are read by the real reader and must give the exact value or an error (documented todo!() panics counted, accepted).",
+   text="Round trip for every C05 shape (expression, DefineConst/DeclareConst/Assert/CheckSatAssuming/GetValue commands, let-variants with binders that shadow declared symbols): same type and solver-proved equivalence for ALL assignments. Value forms are produced by the installed solvers themselves for 11 sorts x boundary values; every response, its token-boundary truncations and single-atom deletions are read by the real reader and must give the exact value or an error (documented todo!() panics counted, accepted). Command streams: whole scripts with push/pop and re-declaration of names under other sorts are written by the real writer and read back through the real read_command with one symbol table. Reader semantics: for every operator spelling found in smt/serialize.rs a term in that spelling is read and the solver decides RefSmt(read(T)) = T with the solver's own reading of T as reference (independent of the expression builders).",
    design_ref="DESIGN.md section 4 C14",
    note="Trusted: RefSmt, solvers. parse_get_value_response is not public; value parsing is reached through public parse_expr on the value text and through the live SmtLibSolverCtx::get_value. z3 4.8.12's (lambda ...) form for Bool-valued arrays and quoted let-binder names are outside the property's list of forms."),
  "C04": dict(
@@ -50,19 +50,19 @@ CHECKS = {
  "C02": dict(
    technique="solver-decided reference reachability vs the real bmc on live solvers: z3 5.1 decides, on an independent reference unrolling, whether a bad state is reachable at each depth <= k for ALL executions; the real bmc (real text protocol to the installed z3 4.8.12 and cvc5 1.0) must return exactly that verdict and first failing depth under 4 capability profiles x 2 modes x simplify on/off",
    category="translation_validation",
-   text="Per generated system and bound the oracle query quantifies over all initial values, all input sequences and all values of next-less states (all executions of length <= k). The real bmc is run 16 times per (system, bound) through a delegating SolverContext that selects check-sat-assuming vs push/pop; any verdict or first-failing-depth mismatch, Err, panic or hang is a violation. The script's meaning is decided separately in C04.",
+   text="Per generated system and bound the oracle query quantifies over all initial values, all input sequences and all values of next-less states (all executions of length <= k). The real bmc is run 16 times per (system, bound) through a delegating SolverContext that selects check-sat-assuming vs push/pop; any verdict or first-failing-depth mismatch, Err, panic or hang is a violation. Besides the generated systems (all operators incl. division), 44 operator-probe systems per width make the verdict hinge on the complete function table of one operator application (all operand pairs, combinational and through a register; table from the harness' big-integer evaluator, cross-checked against the reference unrolling). The script's meaning is decided separately in C04.",
    design_ref="DESIGN.md section 4 C02",
    note="Trusted: RefUnroll, z3 5.1 (oracle), the live solvers' answers. cvc5 profiles are skipped for systems with a non-literal constant array (cvc5 1.0 rejects the non-standard `as const` there). Bounds <= 12, grammar-sized systems."),
  "C03": dict(
    technique="SMT validation of witnesses: every witness returned by the real bmc / pdr on live z3 and cvc5 (several solver seeds through PATH shims) is pinned into an independent reference unrolling; Q1 (pins admit an execution satisfying init, all constraints, exactly the listed bad states) must be sat and Q2 (pins admit any other outcome) must be unsat",
    category="translation_validation",
-   text="Witnesses come from the real get_witness/get_smt_value/get_value path under 4 profiles x 2 modes (+ pdr's BMC fall-back), on failing and on safe systems (a witness on a safe system can only be wrong). The solver decides Q1/Q2 over all unpinned values (array cells the witness does not list); structural clauses (lengths, names, order, a value for every input at every step) are checked natively. The quantifier 'every model the solver may return' is enumerated: 2 solvers x 2-3 seeds.",
+   text="Witnesses come from the real get_witness/get_smt_value/get_value path under 4 profiles x 2 modes (+ pdr's BMC fall-back), on failing and on safe systems (a witness on a safe system can only be wrong). The solver decides Q1/Q2 over all unpinned values (array cells the witness does not list); structural clauses (lengths, names, order, a value for every input at every step) are checked natively. The quantifier 'every model the solver may return' is enumerated: 2 solvers x 2-3 seeds. The operator probes of C02 are included (a failing safe probe yields a witness that cannot be an execution).",
    design_ref="DESIGN.md section 4 C03",
    note="Trusted: RefUnroll, z3 5.1. For states that keep an init but have no next only Q1 is required (the witness format has no place for their later values)."),
  "C10": dict(
    technique="solver-decided unbounded reference reachability vs the real pdr on live solvers: z3 5.1 decides reachability of a bad state on an independent reference unrolling for every depth up to the completeness threshold 2^bits-1 (all executions of a finite system); the real pdr (z3 4.8.12 / cvc5 1.0, generalisation on/off, check-sat-assuming vs push/pop, full-core widening, solver seeds) must answer Success/Fail accordingly, definitely, with a witness that passes the C03 queries",
    category="translation_validation",
-   text="Per generated bit-vector system (<= 5 state bits quick, <= 7 thorough) the oracle quantifies over all executions of every length up to the completeness threshold. Success with a reachable bad state or Fail without one is a soundness violation; Unknown/Err/panic/no answer that reproduces with a 4x budget violates the definite-answer clause; every Fail witness is validated by Q1/Q2 against the reference.",
+   text="Per generated bit-vector system (<= 5 state bits quick, <= 7 thorough) the oracle quantifies over all executions of every length up to the completeness threshold. Success with a reachable bad state or Fail without one is a soundness violation; Unknown/Err/panic/no answer that reproduces with a 4x budget violates the definite-answer clause; every Fail witness is validated by Q1/Q2 against the reference. Combinational operator probes (one 1-bit state, complete function table of one operator application) are included.",
    design_ref="DESIGN.md section 4 C10",
    note="Trusted: RefUnroll, z3 5.1 (oracle). Solver answer choices are enumerated (2 solvers, seeds, minimal vs full cores), not symbolic. cvc5 configurations are skipped for systems containing constant arrays (cvc5 1.0 limitations). Array states are outside (todo!() in pdr)."),
  "C08": dict(
@@ -80,7 +80,7 @@ CHECKS = {
  "C20": dict(
    technique="SMT validation of value summaries: after every operation of a generated history the entries (guard BDD exported as a Boolean expression, value) are read through the cfg(patronus_verif) accessors; the solver proves that the guards are a partition and that, under every valuation of the guard terminals and value symbols, the selected entry's value equals the operation applied to the arguments' denotations; expr_to_guard is proved equivalent to its expression",
    category="translation_validation",
-   text="Histories: all single operations over 16 Boolean and 5 value leaves, structured depth-2 combinations (ite/import summaries sharing, not sharing and complementing conditions) and seeded deeper trees of new/apply_bin_op/apply_ite/coalesce/import_into_guard. Three kinds of unsat obligations per node: partition, denotation, guard conversion. Terminals include expressions with non-Boolean operands, linked to their meaning in the query.",
+   text="Histories: all single operations over 16 Boolean and 5 value leaves, about 400 guard-conversion leaves (every Boolean operator / 1-bit comparison / equality / ite with leaf, negated and compound operands in either position; imported, used as ite condition, combined), structured depth-2 combinations (ite/import summaries sharing, not sharing and complementing conditions) and seeded deeper trees of new/apply_bin_op/apply_ite/coalesce/import_into_guard. Three kinds of unsat obligations per node: partition, denotation, guard conversion. Terminals include expressions with non-Boolean operands, linked to their meaning in the query.",
    design_ref="DESIGN.md section 4 C20",
    note="Trusted: BDD::to_expr of the boolean_expression crate (the hook only reads), RefSmt, solver. Three genuine defects of the pinned tree were repaired (fix: ebac2c2, 80a1d6c, 8b04705)."),
  "C17": dict(
@@ -90,7 +90,7 @@ CHECKS = {
    design_ref="DESIGN.md section 4 C17",
    note="Trusted: RefUnroll, RefSmt, z3 5.1. An inductive-step counterexample that no pair of real executions reproduces within 2*|states|+2 steps is counted inconclusive, not reported."),
  "C06": dict(
-   technique="Kani/CBMC bounded model checking of the baa kernels that eval.rs calls (all operand values at concrete widths, unwinding assertions on) + SMT check of a syn-extracted encoding of the eval dispatch arms against RefSmt (all symbol values) + validation of the real eval_expr on enumerated boundary vectors against a big-integer reference",
+   technique="Kani/CBMC bounded model checking of the baa kernels that eval.rs calls (all operand values at concrete widths, unwinding assertions on) + SMT check of a syn-extracted encoding of the eval dispatch arms against RefSmt (all symbol values) + SMT check that every operator builder (Context methods and Builder closure API) returns a node meaning what the operator application means (all symbol values) + validation of the real eval_expr on enumerated boundary vectors against a big-integer reference",
    category="other",
    text="K: one #[kani::proof] per (kernel, width) with both operands kani::any(), compared with a u128/i128 reference and required to be is_equal to the canonically constructed value: widths 8/64 (+1/63 thorough) for all operators incl. symbolic shift amounts and 64-bit mul, 65/128 for comparisons (quick: 65) and and/or/xor/not/add/sub/negate/slice/extend/concat (thorough). D: the 21 un_op/bin_op arms of eval_expr_internal, the pop order of bin_op and the child order of foreach.rs are re-extracted from the current source on every run and each arm is proved equal to the SMT-LIB operator for all values at widths 1..129. V: about 10^6 evaluations of the real evaluator (three symbol stores, short-circuit values, canonical-representation clause) on all literal classes incl. shift amounts >= width and >= 2^32 - enumeration, not a universally quantified verdict, and said so in the evidence.",
    design_ref="DESIGN.md section 4 C06",
